@@ -138,20 +138,76 @@ impl Env {
     }
 }
 
-pub fn stalled_exit(env: &Env, check: &dyn Check, scn_json: &str, secs: u64) -> ! {
-    let path = format!("{}/replays/{}-hang-{:016x}.json", env.out_dir, check.id(), {
-        let mut h = crate::prng::Fnv::default();
-        h.bytes(scn_json.as_bytes());
-        h.0
+// ------------------------------------------------------------------------------------------
+// Watchdog: the only place real time (and resident memory) is consulted, and only to declare
+// that a run makes no progress. One thread for the whole process; every evaluation (sweep
+// workers, minimisation, replay) registers the scenario it is executing.
+
+pub struct Watch {
+    slots: Mutex<Vec<(u64, String, Instant)>>,
+    next: AtomicU64,
+}
+pub static WATCH: std::sync::OnceLock<Watch> = std::sync::OnceLock::new();
+
+pub struct WatchGuard(u64);
+impl Drop for WatchGuard {
+    fn drop(&mut self) {
+        if let Some(w) = WATCH.get() {
+            w.slots.lock().unwrap().retain(|(id, _, _)| *id != self.0);
+        }
+    }
+}
+
+/// Registers a scenario as "being executed now" until the guard is dropped.
+pub fn watch(scn: &Scenario) -> WatchGuard {
+    let w = WATCH.get_or_init(|| Watch { slots: Mutex::new(vec![]), next: AtomicU64::new(1) });
+    let id = w.next.fetch_add(1, Ordering::SeqCst);
+    w.slots.lock().unwrap().push((id, serde_json::to_string(scn).unwrap(), Instant::now()));
+    WatchGuard(id)
+}
+
+pub fn start_watchdog(env: &Arc<Env>, property: String, replay_of: Option<String>) {
+    let env = env.clone();
+    let _ = WATCH.get_or_init(|| Watch { slots: Mutex::new(vec![]), next: AtomicU64::new(1) });
+    std::thread::spawn(move || {
+        let limit = std::time::Duration::from_secs(90);
+        let mem_limit: u64 = std::env::var("VERIF_MEM_LIMIT_MB").ok().and_then(|s| s.parse().ok()).unwrap_or(16_000) * 1024 * 1024;
+        loop {
+            std::thread::sleep(std::time::Duration::from_millis(25));
+            let rss = std::fs::read_to_string("/proc/self/statm")
+                .ok()
+                .and_then(|s| s.split_whitespace().nth(1).and_then(|x| x.parse::<u64>().ok()))
+                .map(|pages| pages * 4096)
+                .unwrap_or(0);
+            let oldest: Option<(String, std::time::Duration)> = {
+                let g = WATCH.get().unwrap().slots.lock().unwrap();
+                g.iter().map(|(_, js, t)| (js.clone(), t.elapsed())).max_by_key(|(_, d)| *d)
+            };
+            let Some((js, age)) = oldest else { continue };
+            let why = if age > limit {
+                format!("one run made no progress for {}s of real time", age.as_secs())
+            } else if rss > mem_limit && age.as_millis() > 300 {
+                format!("resident memory grew to {} MB while one run was executing", rss >> 20)
+            } else {
+                continue;
+            };
+            let path = match &replay_of {
+                Some(p) => p.clone(),
+                None => {
+                    let mut h = crate::prng::Fnv::default();
+                    h.bytes(js.as_bytes());
+                    let p = format!("{}/replays/{}-hang-{:016x}.json", env.out_dir, property, h.0);
+                    let _ = std::fs::create_dir_all(format!("{}/replays", env.out_dir));
+                    let _ = std::fs::write(&p, &js);
+                    p
+                }
+            };
+            env.say(&format!(
+                "VIOLATION property={property} replay={path} sig=watchdog (watchdog: {why}: the planner spins, or allocates without bound, without touching any seam)"
+            ));
+            std::process::exit(1);
+        }
     });
-    let _ = std::fs::create_dir_all(format!("{}/replays", env.out_dir));
-    let _ = std::fs::write(&path, scn_json);
-    env.say(&format!(
-        "VIOLATION property={} replay={} (watchdog: one run made no progress for {secs}s of real time or memory grew beyond the limit: the planner spins without touching any seam)",
-        check.id(),
-        path
-    ));
-    std::process::exit(1);
 }
 
 pub struct Sweep {
@@ -165,15 +221,12 @@ pub fn sweep(env: &Arc<Env>, check: &Arc<dyn Check>, tier: Tier, lo: u64, n: u64
     let t0 = Instant::now();
     let next = Arc::new(AtomicU64::new(0));
     let slots: Arc<Vec<Mutex<Option<(Scenario, Report)>>>> = Arc::new((0..n).map(|_| Mutex::new(None)).collect());
-    let current: Arc<Vec<Mutex<(Option<String>, Instant)>>> =
-        Arc::new((0..env.workers).map(|_| Mutex::new((None, Instant::now()))).collect());
     let done = Arc::new(AtomicUsize::new(0));
     let mut handles = vec![];
     for w in 0..env.workers {
         let next = next.clone();
         let slots = slots.clone();
         let check = check.clone();
-        let current = current.clone();
         let done = done.clone();
         let seed = env.seed;
         handles.push(
@@ -186,11 +239,12 @@ pub fn sweep(env: &Arc<Env>, check: &Arc<dyn Check>, tier: Tier, lo: u64, n: u64
                             break;
                         }
                         let scn = check.generate(seed, lo + i, tier);
-                        *current[w].lock().unwrap() = (Some(serde_json::to_string(&scn).unwrap()), Instant::now());
                         let t = Instant::now();
-                        let mut rep = check.evaluate(&scn);
+                        let mut rep = {
+                            let _g = watch(&scn);
+                            check.evaluate(&scn)
+                        };
                         rep.wall_us = t.elapsed().as_micros() as u64;
-                        *current[w].lock().unwrap() = (None, Instant::now());
                         *slots[i as usize].lock().unwrap() = Some((scn, rep));
                     }
                     done.fetch_add(1, Ordering::SeqCst);
@@ -198,37 +252,8 @@ pub fn sweep(env: &Arc<Env>, check: &Arc<dyn Check>, tier: Tier, lo: u64, n: u64
                 .unwrap(),
         );
     }
-    // watchdog: the only place real time is consulted, and only to declare a hang
-    let limit = 90;
-    let mem_limit: u64 = std::env::var("VERIF_MEM_LIMIT_MB").ok().and_then(|s| s.parse().ok()).unwrap_or(16_000) * 1024 * 1024;
     while done.load(Ordering::SeqCst) < env.workers {
-        std::thread::sleep(std::time::Duration::from_millis(50));
-        // a parent-link cycle makes path extraction allocate without bound: resident memory
-        // beyond the limit is attributed to the run that has been going longest
-        let rss = std::fs::read_to_string("/proc/self/statm")
-            .ok()
-            .and_then(|s| s.split_whitespace().nth(1).and_then(|x| x.parse::<u64>().ok()))
-            .map(|pages| pages * 4096)
-            .unwrap_or(0);
-        let mut oldest: Option<(std::time::Duration, String)> = None;
-        for c in current.iter() {
-            let g = c.lock().unwrap();
-            if let (Some(js), t) = (&g.0, g.1) {
-                if t.elapsed().as_secs() > limit {
-                    stalled_exit(env, &**check, js, limit);
-                }
-                if oldest.as_ref().is_none_or(|(d, _)| t.elapsed() > *d) {
-                    oldest = Some((t.elapsed(), js.clone()));
-                }
-            }
-        }
-        if rss > mem_limit {
-            if let Some((d, js)) = oldest {
-                if d.as_millis() > 500 {
-                    stalled_exit(env, &**check, &js, d.as_secs());
-                }
-            }
-        }
+        std::thread::sleep(std::time::Duration::from_millis(20));
     }
     for h in handles {
         let _ = h.join();
@@ -256,6 +281,7 @@ pub fn run_check(env: &Arc<Env>, check: Arc<dyn Check>, tier: Tier) -> i32 {
     env.say(&format!("[{}] tier={} seed={} runs={} workers={}", check.id(), tier.name(), env.seed, n, env.workers));
     let known = load_known(&env.dir);
     let t_start = Instant::now();
+    start_watchdog(env, check.id().to_string(), None);
 
     let mut planner_runs = 0u64;
     let mut sim_ns = 0u128;
@@ -408,28 +434,9 @@ pub fn run_check(env: &Arc<Env>, check: Arc<dyn Check>, tier: Tier) -> i32 {
 
 /// Re-executes a replay file. Exit 1 + VIOLATION when it reproduces exactly, 2 otherwise.
 pub fn run_replay(env: &Arc<Env>, check: Arc<dyn Check>, scn: &Scenario, path: &str) -> i32 {
-    // watchdog: a replay of a hang must itself be declared a hang
-    {
-        let env = env.clone();
-        let (prop, path) = (scn.property.clone(), path.to_string());
-        std::thread::spawn(move || {
-            let mem_limit: u64 = std::env::var("VERIF_MEM_LIMIT_MB").ok().and_then(|s| s.parse().ok()).unwrap_or(16_000) * 1024 * 1024;
-            let t0 = Instant::now();
-            while t0.elapsed().as_secs() < 100 {
-                std::thread::sleep(std::time::Duration::from_millis(100));
-                let rss = std::fs::read_to_string("/proc/self/statm")
-                    .ok()
-                    .and_then(|s| s.split_whitespace().nth(1).and_then(|x| x.parse::<u64>().ok()))
-                    .map(|pages| pages * 4096)
-                    .unwrap_or(0);
-                if rss > mem_limit {
-                    break;
-                }
-            }
-            env.say(&format!("VIOLATION property={prop} replay={path} (watchdog: the replayed run made no progress for 100s of real time, or its memory grew beyond the limit)"));
-            std::process::exit(1);
-        });
-    }
+    // a replay of a hang must itself be declared a hang
+    start_watchdog(env, scn.property.clone(), Some(path.to_string()));
+    let _g = watch(scn);
     let rep = check.evaluate(scn);
     let Some(exp) = &scn.expect else {
         env.say("replay file has no `expect` block; result:");
